@@ -47,6 +47,9 @@ def build_plan(choice: Choice, tier):
         call["consume"] = "exact" if d(4, "consume") == 3 else "full"
         calls.append(call)
     p["calls"] = calls
+    # FunctorMap: the generators of all calls may be created first and consumed one after the other afterwards
+    # (chain(fm(a), fm(b)) / a prepared list of generators); creating a generator must not start anything
+    p["prepared"] = p["mode"] == "FunctorMap" and d(4, "prepared") == 3
     return p
 
 
@@ -112,11 +115,12 @@ def scenario(k: Kernel, plan, obs):
         obs["phase"] = "enter"
         with fm:
             obs["phase"] = "inside"
+            prepared = [fm(data_of(c, call), call["chunk"]) for c, call in enumerate(plan["calls"])] if plan.get("prepared") else None
             for c, call in enumerate(plan["calls"]):
                 out = []
                 obs["outs"].append(out)
                 obs["call_state"].append("running")
-                gen = fm(data_of(c, call), call["chunk"])
+                gen = prepared[c] if prepared else fm(data_of(c, call), call["chunk"])
                 if call["consume"] == "exact":
                     gen = take(gen, call["n"])
                 for v in gen:
